@@ -68,6 +68,7 @@ class St:
         self.delegs = set()
         self.cmp_seen = False
         self.sc_viol = []            # delegated calls evaluated under a short-circuit / data-dependent condition
+        self.late_snap = []          # 'before' snapshots of self taken after self was already mutated
 
     def copy(self):
         s = St(self.o)
@@ -78,6 +79,7 @@ class St:
         s.delegs = set(self.delegs)
         s.cmp_seen = self.cmp_seen
         s.sc_viol = list(self.sc_viol)
+        s.late_snap = list(self.late_snap)
         return s
 
 
@@ -271,6 +273,10 @@ class Interp:
                             self.bind(stmt['p'], stmt['i'], s2, v)
                             if stmt['p'].get('k') == 'bind':
                                 s2.env[stmt['p']['id']] = v
+                                i0 = strip(stmt['i'])
+                                # a snapshot of (part of) self, e.g. `let self_len = self.0.len()`
+                                if v is None and i0.get('k') == 'mcall' and self.side(i0['r'], s2) == 'self' and not (self.cr.ty(i0) or '').startswith('&'):
+                                    s2.env[stmt['p']['id']] = ('snap', bool(s2.assigned or s2.may_mut), stmt)
                             nxt.append(s2)
                     else:
                         self.bind(stmt['p'], None, s)
@@ -319,6 +325,13 @@ class Interp:
                 res = {'<': o == 'Less', '<=': o in ('Less', 'Equal'), '>': o == 'Greater', '>=': o in ('Greater', 'Equal'),
                        '==': o == 'Equal', '!=': o != 'Equal'}[op]
                 return [(B.const(res), st, None)]
+        if op in ('!=', '==', '<', '>', '<=', '>='):
+            for side_ in (n['l'], n['r']):
+                l_ = strip(side_)
+                if l_.get('k') == 'path' and l_.get('res') == 'local':
+                    v_ = st.env.get(l_['id'])
+                    if isinstance(v_, tuple) and v_ and v_[0] == 'snap' and v_[1]:
+                        st.late_snap.append(v_[2])
         outs = []
         for lv, s, c in self.ev(n['l'], st):
             if c:
@@ -654,6 +667,12 @@ def analyse_mut(cr, b, m, rep):
                 b['path'], o, s.assigned, len(s.delegs),
                 'T' if isinstance(v, B) and v.def_true() else 'F' if isinstance(v, B) and v.def_false() else '?'))
             where = b['path']
+            # T: "changed" computed against a snapshot that was taken after self had already been modified
+            for stmt in s.late_snap:
+                rep.viol('L10.T', where, 'late-snapshot',
+                         'the change flag compares self with a "before" value (`%s`) that is recorded after self was already modified '
+                         '(e.g. after a swap): the comparison no longer tells whether the receiver changed' % stmt['p'].get('n'),
+                         loc=cr.loc(stmt['i']))
             # R: short-circuit / conditional evaluation of delegated calls
             for d in s.sc_viol:
                 rep.viol('L10.R', where, 'conditional-delegation',
